@@ -24,7 +24,8 @@ func TestC19(t *testing.T) {
 	// reachable states: no canary / mid rolling update (S2), canary running / auto-paused (restart:2 > autoPause 1) / user-paused / failed (S3)
 	cmds := &w.Alpha{Kubectl: allKubectl}
 	canaryCmds := []string{"canary-pause", "canary-unpause", "canary-validate", "canary-fail"}
-	cmdsCanary := &w.Alpha{Kubectl: append(append([]string{}, canaryCmds...), "freeze-rollout", "pause-rolling-update"), PodDev: []string{"restart:2"}}
+	// Templates "B": after a rollback the user may re-apply the template that just failed
+	cmdsCanary := &w.Alpha{Kubectl: append(append([]string{}, canaryCmds...), "freeze-rollout", "pause-rolling-update"), PodDev: []string{"restart:2"}, Templates: []string{"B"}}
 	cmdsLater := &w.Alpha{Kubectl: []string{"canary-validate", "canary-pause"}, Templates: []string{"C"}}
 	if h.Thorough() {
 		cmdsCanary = &w.Alpha{Kubectl: allKubectl, PodDev: []string{"restart:2"}, Templates: []string{"C"}}
@@ -110,6 +111,10 @@ func TestC19(t *testing.T) {
 				run.Count("antecedent:C19/fail-interpreted", 1)
 				if e.Status.ActiveReplicaSet == canaryRS || e.Status.Canary != nil && e.Status.Canary.ReplicaSet == canaryRS {
 					viol("C19/interpret: after canary fail the canary was not rolled back", fmt.Sprintf("active=%s canary=%v", e.Status.ActiveReplicaSet, e.Status.Canary))
+				}
+				// while the failed replica set is still there (marked failed), spec.template must not stay on its template
+				if failed && w.TemplateHash(&e.Spec.Template) == rs.Spec.TemplateGeneration {
+					viol("C19/interpret: after canary fail spec.template still is (or is again) the failed template at the fixpoint", w.TemplateTag(&e.Spec.Template))
 				}
 			}
 		}
